@@ -1,0 +1,27 @@
+//go:build verif
+
+package manifestutil
+
+// Contracts for gocv (see /verif/DESIGN.md). Comment-only file.
+
+//@ package manifestutil
+//@ import ocispec "github.com/opencontainers/image-spec/specs-go/v1"
+//@ import content "oras.land/oras-go/v2/content"
+//@ import json "encoding/json"
+//@ import io "io"
+//@
+//@ // Merkle height: content addressed by a descriptor can only embed descriptors of content
+//@ // that existed before it (assumption A-merkle: no digest cycles)
+//@ pure carriesSubject(mt string) bool = mt == "application/vnd.oci.image.manifest.v1+json" || mt == "application/vnd.oci.image.index.v1+json" || mt == "application/vnd.oci.artifact.manifest.v1+json"
+//@
+//@ ghost local subjRead bool
+//@ func Subject
+//@   requires [wf] fetcher != nil
+//@   entry set subjRead = false
+//@   call FetchAll requires [C09:reads-the-manifest-itself] args.desc == desc && args.fetcher == fetcher
+//@   call FetchAll set subjRead = true
+//@   call Unmarshal assume [A-merkle] manifest.Subject != nil ==> height(*manifest.Subject) < height(desc) && alive(manifest.Subject)
+//@   ensures [C07,C09:every-manifest-kind-that-can-carry-a-subject-is-read] carriesSubject(desc.MediaType) ==> subjRead
+//@   ensures [C07,C09:other-kinds-have-no-subject] !carriesSubject(desc.MediaType) ==> result0 == nil && result1 == nil && !subjRead
+//@   ensures [merkle-acyclic] result1 == nil && result0 != nil ==> height(*result0) < height(desc) && alive(result0)
+//@   modifies alloc, new ocispec.Descriptor.*, elems[byte], elems[any], ghost.delivered, ghost.atEOF, ghost.closedRC, ghost.present, ghost.readerOver, ghost.matched, ghost.digestOK, content.VerifyReader.err, content.VerifyReader.verified, io.LimitedReader.N
